@@ -94,10 +94,10 @@ class PostgreSQLQueryBuilder(QueryBuilder):
                 self._return_other(self.wrap_constant(term, self._wrapper_cls))
 
     def _validate_returning_term(self, term: Term) -> None:
-        for field in term.fields_():
-            if not any([self._insert_table, self._update_table, self._delete_from]):
-                raise QueryException("Returning can't be used in this query")
+        if not any([self._insert_table, self._update_table, self._delete_from]):
+            raise QueryException("Returning can't be used in this query")
 
+        for field in term.fields_():
             table_is_insert_or_update_table = field.table in {
                 self._insert_table,
                 self._update_table,
@@ -131,11 +131,6 @@ class PostgreSQLQueryBuilder(QueryBuilder):
         self._returns.append(term)  # type:ignore[arg-type]
 
     def _return_field_str(self, term: str | Field) -> None:
-        if term == "*":
-            self._set_returns_for_star()
-            self._returns.append(Star())
-            return
-
         if self._insert_table:
             table = self._insert_table
         elif self._update_table:
@@ -144,6 +139,12 @@ class PostgreSQLQueryBuilder(QueryBuilder):
             table = self._from[0]
         else:
             raise QueryException("Returning can't be used in this query")
+
+        if term == "*":
+            self._set_returns_for_star()
+            self._returns.append(Star())
+            return
+
         self._return_field(Field(term, table=table))  # type:ignore[arg-type]
 
     def _return_other(self, function: Term) -> None:
